@@ -429,7 +429,10 @@ def eval_wrap_case(case, keep_dir=None):
             # C18's business (rejects a supported header); nothing to run here
             return {"violation": None, "findings": [], "stats": stats, "skipped": "tool failed"}
         text = r["output"].decode("utf-8", "replace")
-        for m in wrapsim.entries_without_wrapper(model, text):
+        nv = wrapsim.check_names(d, model, config, r["out_path"])
+        if nv:
+            return {"violation": nv, "findings": [], "stats": stats, "plan_index": None}
+        for m in wrapsim.entries_without_wrapper(model, config, text):
             same = [o for o in hdrgen.object_types(model) if o["kind"] == m["kind"] and o["name"] == m["name"]][0]
             shared = sum(1 for v in same["vtbls"] for f in v["funcs"] if f[0] == m["entry"]) > 1
             site = "group traits sharing a method name" if (m["kind"] == "group" and shared) else "%s %s" % (m["kind"], m["name"])
